@@ -47,8 +47,9 @@ SPEC = {
     "cone": "(PCone _ _ tt tt)", "ellipsoid": "(PEllipsoid _ _ uv)", "box": "(PBox _ _ uv)",
     "disk": "(PDisk _ _ tt)", "ellipse": "(PEllipse _ _ (tt, tt))", "mesh": "(PMesh _ _ [] tt 0)",
 }
-WELL_FORMED_SRC = ["fresh", "stack", "tm", "tm2"]
-SRC_LAYOUT = {"fresh": "U LC", "stack": "US LC", "tm": "U LC", "tm2": "U LC", "fortran": "U LF", "strided": "U LA"}
+WELL_FORMED_SRC = ["fresh", "stack", "tm", "tm2", "inplace", "stack_inplace"]
+SRC_LAYOUT = {"fresh": "U LC", "stack": "US LC", "tm": "U LC", "tm2": "U LC", "inplace": "U LC", "stack_inplace": "US LC",
+              "fortran": "U LF", "strided": "U LA"}
 
 
 # ---------------------------------------------------------------- generators
@@ -179,10 +180,12 @@ def gen_dir(rng):
 
 
 def gen_update(rng, malformed):
-    src = rng.choices(WELL_FORMED_SRC, [0.4, 0.35, 0.1, 0.15])[0]
+    src = rng.choices(WELL_FORMED_SRC, [0.3, 0.25, 0.1, 0.1, 0.15, 0.1])[0]
     if malformed and rng.random() < 0.6:
         src = rng.choice(["fortran", "strided"])
     op = dict(op="update", src=src, pose=gen_pose(rng))
+    if src == "stack_inplace":
+        op["i"] = rng.randrange(3)
     if src == "stack":
         n = rng.randint(1, 5)
         i = rng.randrange(n)
@@ -208,7 +211,31 @@ def gen_case(rng, malformed=False):
     ops = []
     cur = pose0
     track = None
-    if not malformed and rng.random() < 0.3:
+    drift = (not malformed) and rng.random() < 0.12
+    if drift:
+        # a slowly turning object: every update_pose differs from the previous pose by a tiny rotation (a fast path
+        # guarded by np.allclose on the orientation would keep stale caches) and an arbitrary translation
+        n = rng.randint(3, 8)
+        for _ in range(n):
+            ang = 10 ** rng.uniform(-7, -4.5)
+            ax = rng.randrange(3)
+            i, j = [(1, 2), (0, 2), (0, 1)][ax]
+            c_, s_ = math.cos(ang), math.sin(ang)
+            R = [[cur[4 * r + cc] for cc in range(3)] for r in range(3)]
+            Q = [[float(r == cc) for cc in range(3)] for r in range(3)]
+            Q[i][i], Q[i][j], Q[j][i], Q[j][j] = c_, -s_, s_, c_
+            R2 = [[sum(R[r][m] * Q[m][cc] for m in range(3)) for cc in range(3)] for r in range(3)]
+            t = [cur[3] + rng.uniform(-0.5, 0.5) * (rng.random() < 0.5), cur[7], cur[11] + rng.uniform(-0.1, 0.1)]
+            pose = [R2[0][0], R2[0][1], R2[0][2], t[0], R2[1][0], R2[1][1], R2[1][2], t[1],
+                    R2[2][0], R2[2][1], R2[2][2], t[2], 0.0, 0.0, 0.0, 1.0]
+            src = rng.choice(["fresh", "fresh", "inplace", "tm"])
+            ops.append(dict(op="update", src=src, pose=pose))
+            cur = pose
+            if rng.random() < 0.4:
+                ops.append(dict(op=rng.choice(["aabb", "first_vertex"])) if rng.random() < 0.5
+                           else dict(op="support", d=gen_dir(rng)))
+        n = 0
+    if not malformed and not drift and rng.random() < 0.3:
         # "tracking" history: the SAME query repeated immediately before and after update_pose (and twice in a
         # row), as a trajectory player asking for the highest point / the AABB along a path does
         track = gen_dir(rng) if rng.random() < 0.8 else [0.0, 0.0, 1.0]
@@ -477,7 +504,9 @@ def run(tier, seed, replay=None):
     R.cov["rule"] = (
         "case = collider class (sphere/capsule/cylinder/cone/box/ellipsoid/disk/ellipse/mesh) x 0-2 Margin wrappers x "
         "history of 1-8 ops (update_pose with the pose as fresh array | item of an np.stack | returned by a "
-        "pytransform3d TransformManager (direct edge / concatenated path); support_function | aabb | center | "
+        "pytransform3d TransformManager (direct edge / concatenated path) | ONE buffer / one item of a persistent stack that "
+        "the caller overwrites in place and hands over again; 12% 'drift' histories: consecutive poses differ by a rotation of "
+        "1e-7..3e-5 rad; support_function | aabb | center | "
         "first_vertex | collider2origin | gjk.gjk vs another collider; 30% 'tracking' histories: the SAME query "
         "immediately before and after each update_pose and twice in a row, the final battery starting with it again); poses = identity / 24 axis permutations (x 45 deg) "
         "/ random quaternions, translations lattice / uniform / up to 1e3. After the history: 7 support directions, aabb, "
@@ -492,7 +521,9 @@ def run(tier, seed, replay=None):
         "kernels on equal data is observed, not proved",
         "MeshGraph: equality up to the cached start vertex; support-value equality needs hill climbing to reach a global "
         "maximum (C03's mesh hypothesis: convex mesh, exact arithmetic)",
-        "in-place mutation of a pose array by the caller after update_pose (most classes keep a reference/view) is outside the property",
+        "in-place mutation of a pose array by the caller is covered only when update_pose is called again with that array right "
+        "after the mutation (sources 'inplace' / 'stack_inplace'); queries between the mutation and update_pose are outside the property "
+        "(most classes keep a reference / view of the array)",
         "harness/compat.py import shim; numpy/numba/CPython; pytransform3d TransformManager as pose source",
     ]
     # 1. tables from the current sources, then the proofs
